@@ -30,6 +30,46 @@ CHECKS["C04"].update({
     "level_note": "trusts runtime.MemStats.TotalAlloc as allocation measure and the independent refwire codec for field comparison; zeebo/bencode string pre-allocation is a listed known finding",
 })
 
+E1_ASSUME = COMMON_ASSUMPTIONS + [
+    "sched part: interleavings are explored at the granularity of the named yield points (places where the store lock is not held); finer interleavings are only exercised by the free-running stress part",
+    "heap pieces (<128 KiB) cannot be used after free (GC); only mmap'd pieces give the SIGSEGV oracle; both sizes are in every geometry set",
+    "a corrupt piece whose SHA-1 collides with the metainfo hash is outside any oracle",
+]
+
+def _e1_parts(prop):
+    return [
+        {"name": "sched", "pkg": "e1_store", "race": False, "shards": 16, "env": {"VERIF_PROP": prop}},
+        {"name": "stress", "pkg": "e1_store", "race": True, "shards": 16, "env": {"VERIF_PROP": prop}},
+    ] + ([{"name": "lru", "pkg": "e1_store", "race": False, "shards": 16, "env": {"VERIF_PROP": prop}}] if prop == "C03" else [])
+
+CHECKS["C01"] = {
+    "level": "exploration",
+    "engine": "E1 piece store",
+    "rule": ("sched: 96 templated scenarios built around the windows named in the property (Finalise||AddData, ||ReadAt, ||Expire, ||Del, wrong hash, two Finalise; heap and mmap piece sizes; short last piece/block) explored by stateless DFS over yield-point release choices inside a synctest bubble, plus random programs x random schedules; "
+             "stress: 4-12 free-running goroutines x rounds on 1-3 stores with a racing Del, built with -race, yield points inject Gosched/sleeps. "
+             "Distinct = (scenario, variant) or program hash; non-trivial = at least two real scheduling decisions (sched) / at least one successful Finalise in the history (stress). distinct schedules are counted separately in counters."),
+    "assumptions": E1_ASSUME,
+    "min": {"distinct_nontrivial": {"quick": 100, "thorough": 100}, "counters": {"reads_with_data": 200, "visibility_histories": 200, "distinct_schedules_with_interleaving": 500}},
+    "parts": _e1_parts("C01"),
+    "technique": "runtime monitor: content oracle (PRF truth) on every read + per-piece visibility history checked with porcupine, over schedules enumerated at yield points in a synctest bubble and free-running -race stress; SIGSEGV on munmap'd buffers as hardware UAF oracle",
+    "level_text": "The real piece store is executed under thousands of distinct yield-point schedules (DFS on templated race windows, random elsewhere) and under -race stress; every byte read is compared with position-dependent truth and each piece's history must be linearizable against 'readable only between a successful Finalise and a reported eviction/Del'. Held on the executions observed.",
+    "level_note": "schedules are at yield-point granularity; race detector only sees accesses the stress workload made",
+}
+
+CHECKS["C03"] = {
+    "level": "exploration",
+    "engine": "E1 piece store",
+    "rule": ("same workloads as C01 (sched DFS/random, stress) with the accounting oracles: at every quiescent cut alloc.Bytes() == sum of cap(buffer) over all pieces (reflect) and count == #buffers; complete pieces disappear only through a reported eviction or Del; after Del nothing is owned or allocated; "
+             "plus lru: sequential eviction passes over stores whose piece ages were produced by virtual sleeps (0 s..3 h), checked for reaching the target, least-recently-accessed-first (commonest first beyond 2 h) and exact eviction reports. "
+             "Distinct = scenario/program/eviction-class hash; non-trivial = >=2 scheduling decisions (sched), a successful Finalise (stress), a pass with both evicted and surviving pieces (lru)."),
+    "assumptions": E1_ASSUME,
+    "min": {"distinct_nontrivial": {"quick": 100, "thorough": 100}, "counters": {"cuts_checked": 2000, "release_checks": 200, "lru_passes": 100}},
+    "parts": _e1_parts("C03"),
+    "technique": "runtime monitor: structural invariant (allocator counter vs. buffers walked by reflect) at quiescent cuts of a yield-point scheduler, eviction-order and report oracles in virtual time, -race stress with barrier cuts",
+    "level_text": "Accounting, eviction and release invariants are asserted at every quiescent cut of thousands of enumerated schedules and at barriers of -race stress runs, eviction order is judged on ages produced in virtual time. Held on the executions observed.",
+    "level_note": "reads unexported fields through reflect at cuts (a missing field makes the run inconclusive, never a violation)",
+}
+
 MANIFEST_META = {
     "hook_commits": ["db0b83b", "f0ff4d9", "d998a9e"],
     "pending_reason": {},
